@@ -13,6 +13,7 @@ import (
 
 	"verif/internal/core"
 	"verif/internal/engines/concur"
+	_ "verif/internal/engines/disk"
 )
 
 func usage() {
